@@ -46,7 +46,7 @@ CHECKS["C06"] = ("libspace", "model_checking",
    "explicit-state enumeration of the configuration space against the implementation with a reference-model oracle", "§5 C06")
 CHECKS["C13"] = ("positions", "model_checking",
    "bounded exhaustive exploration: every document of a (preceding lines x preceding text on the line x link form x host block x line ending) alphabet, and in each every (line, UTF-16 character) position plus two lines past the end, is queried on the real server (definition, prepareRename, rename; symbols; code actions per line); answers are compared with link spans and block lines computed from pulldown-cmark's offset iterator and an own byte-offset -> UTF-16 position mapper",
-   "position == end of the link span is a don't-care; the prepareRename range must be a well-formed range inside the link span (exact destination columns are not demanded by the statement)",
+   "position == end of the link span is a don't-care; the prepareRename range must be a well-formed range inside the link span whose two ends fall between characters of their line in UTF-16 units (exact destination columns are not demanded by the statement); three of the eleven link forms have a destination with a character outside the BMP",
    "explicit-state enumeration of inputs x positions against the implementation with a reference-model oracle", "§5 C13")
 CHECKS["C15"] = ("paths", "model_checking",
    "bounded exhaustive exploration of the whole space of path shapes up to a depth: every (note key, linking directory) pair over two segment names and every decorated url over {a, b, ., ..} with .md / ./ forms is run through the real Key API, import/export, completion and extract; round-trip laws (no expected literals) are checked against an own path resolver",
